@@ -171,6 +171,8 @@ def random_pg(
             at["label"] = rng.choice(["x", "y", 1, 2.5, True])
         if attrs and rng.random() < 0.2:
             at["charge"] = rng.choice([-1, 0, 1])
+        if attrs and rng.random() < 0.08:
+            at[rng.choice(["atom", "self", "attr", "value", "atom1"])] = rng.choice(["CA", 1, None])
         pg["atoms"][ids[i]] = at
     for e in edges:
         x, y = tuple(e)
@@ -179,6 +181,8 @@ def random_pg(
             ba["reaction"] = rng.choice(ROLES)
         if attrs and rng.random() < 0.4:
             ba["bond_order"] = rng.choice([1, 2, 1.5])
+        if attrs and rng.random() < 0.08:
+            ba[rng.choice(["atom1", "atom2", "self", "attr", "value"])] = rng.choice(["x", 2])
         pg["bonds"][frozenset((ids[x], ids[y]))] = ba
     if cls in STEREO:
         decorate(rng, pg, p_stereo=p_stereo, p_none=p_none, p_change=p_change if cls in REACTION else 0.0, one_sided=one_sided_bond_desc, valid=rng.random() >= p_invalid)
